@@ -17,6 +17,7 @@ static char mbuf[1 << 16];
 static size_t mlen;
 static long cur_line;
 int vh_align = 0;
+volatile int vh_one = 1; /* macro-hygiene arguments: see vh_scalar.c */
 
 void out(const char *fmt, ...) {
     va_list ap;
